@@ -70,6 +70,12 @@ struct Model {
     uint32_t present = 0;
     Bytes val[NFIELDS];
     std::vector<ExtWord> ext;
+    // Fields libtins does not know (present bits 22..28: timestamp, HE, ... as written by current drivers) and slack up to
+    // it_len: opaque octets behind the last known field. Setters must leave them where they are - behind the known fields -
+    // and the unknown present bits untouched (their alignment cannot be maintained by a library that does not know their
+    // sizes, so only order and content are demanded).
+    uint32_t unknown_bits = 0;
+    Bytes tail;
     bool has(unsigned b) const { return (present >> b) & 1; }
     void set(unsigned b, const Bytes& v) { present |= 1u << b; val[b] = v; }
     const Bytes* first(unsigned b) const {  // first occurrence of the field in any present word
@@ -78,7 +84,7 @@ struct Model {
         return nullptr;
     }
     uint32_t word(size_t k) const {  // present word k as it appears on the wire
-        uint32_t w = k == 0 ? present : ext[k - 1].present;
+        uint32_t w = k == 0 ? (present | unknown_bits) : ext[k - 1].present;
         if (k < ext.size()) w |= BIT_NS | BIT_EXT;
         return w;
     }
@@ -122,6 +128,7 @@ static Layout ref_layout(const Model& m) {
         }
         l.ext_off.push_back(offs);
     }
+    l.header.insert(l.header.end(), m.tail.begin(), m.tail.end());
     l.header[2] = (uint8_t)(l.header.size() & 0xff);
     l.header[3] = (uint8_t)(l.header.size() >> 8);
     return l;
@@ -250,6 +257,7 @@ static std::string describe(const Model& m) {
         first = false;
     }
     os << "}";
+    if (m.unknown_bits || !m.tail.empty()) os << "+unknown(bits 0x" << std::hex << m.unknown_bits << std::dec << ", " << hex(m.tail) << ")";
     for (const ExtWord& w : m.ext) {
         os << "+{";
         first = true;
@@ -298,7 +306,7 @@ static void check_state(Ctx& ctx, const std::string& pfx, const RadioTap& rt, co
     }
     uint32_t pres = (uint32_t)rt.present();
     if (m.ext.empty()) {
-        VCHECK(ctx, pres == m.present, pfx + "present", where << ": present() = 0x" << std::hex << pres << " expected 0x" << m.present << std::dec << "; model "
+        VCHECK(ctx, pres == (m.present | m.unknown_bits), pfx + "present", where << ": present() = 0x" << std::hex << pres << " expected 0x" << (m.present | m.unknown_bits) << std::dec << "; model "
                                                               << describe(m));
     } else {
         // several present words: present() is documented as "the bit mask of the present fields"; the field bits must be
@@ -321,6 +329,11 @@ static void check_state(Ctx& ctx, const std::string& pfx, const RadioTap& rt, co
         bool same = std::equal(m.val[b].begin(), m.val[b].end(), pl.begin() + o);
         VCHECK(ctx, same, pfx + "layout:field-bytes", where << ": field " << FIELDS[b].name << " expected at header offset " << l.off[b] << " with bytes "
                                                             << hex(m.val[b]) << "; options_payload " << hex(pl) << " canonical " << hex(want));
+    }
+    if (!m.tail.empty()) {
+        bool same = std::equal(m.tail.begin(), m.tail.end(), pl.end() - m.tail.size());
+        VCHECK(ctx, same, pfx + "layout:unknown-trailing-octets", where << ": the " << m.tail.size() << " octets behind the known fields (" << hex(m.tail)
+                                                                        << ") are not at the end of options_payload " << hex(pl) << " canonical " << hex(want));
     }
     for (size_t k = 0; k < m.ext.size(); ++k) {
         for (unsigned b = 0; b < NFIELDS; ++b) {
@@ -486,6 +499,13 @@ static void gen_start(Src& s, Ctx& ctx, Case& c) {
             c.start.ext.push_back(w);
         }
     }
+    // octets behind the last known field (drawn last): unknown fields / slack, only with a single present word
+    if (c.start.ext.empty() && s.chance(25)) {
+        static const uint8_t N[6] = {1, 2, 4, 8, 12, 20};
+        c.start.tail = s.bytes(N[s.pick(6)]);
+        if (s.chance(70)) c.start.unknown_bits = 1u << (22 + (unsigned)s.range(0, 6));   // e.g. bit 22 = TIMESTAMP
+        if (c.start.tail.empty()) c.start.tail.push_back(0x5a);
+    }
     if (c.start.has(BIT_FLAGS) && (c.start.val[BIT_FLAGS][0] & FLAG_FCS) && (c.start.val[BIT_FLAGS][0] & FLAG_FAILED_FCS)) {
         // RadioTap(buffer) rejects frames flagged "FCS present + FCS check failed" (malformed_packet, by design)
         c.start.val[BIT_FLAGS][0] &= (uint8_t)~FLAG_FAILED_FCS;
@@ -590,6 +610,7 @@ void prop(Src& s, Ctx& ctx) {
         for (unsigned b = 0; b < NFIELDS; ++b) if (w.has(b)) ctx.hash(hash_bytes(w.val[b].data(), w.val[b].size()));
     }
     if (!c.start.ext.empty()) ctx.label("start-present-words=" + std::to_string(1 + c.start.ext.size()));
+    if (!c.start.tail.empty()) { ctx.label("start-unknown-trailing-octets"); ctx.hash(0xd0000000u | c.start.unknown_bits); ctx.hash(hash_bytes(c.start.tail.data(), c.start.tail.size())); }
     ctx.hash(c.inner.kind);
     ctx.hash(hash_bytes(c.inner.bytes.data(), c.inner.bytes.size()));
     ctx.hash((c.attach_first ? 1 : 0) | (c.detach ? 2 : 0));
